@@ -8,24 +8,67 @@ From Coq Require Import List Bool PArith ZArith.
 From Krrood Require Import Base.Sx Diagram.Ty Diagram.FieldKindSpec Diagram.DiagramSpec Gen.FieldKind.
 Import ListNotations.
 
+(* ---- WrappedField.resolved_type when the module cannot see a name (TYPE_CHECKING-only import) ----
+   get_type_hints(cls) evaluates every annotation of every class of the MRO (base first) in that class's module and
+   raises NameError for the first name it cannot find.  Since 91db0c8 the retry starts from the diagram's classes as
+   local namespace and adds every further missing name it finds in the loaded modules, one after the other, until
+   the hints evaluate: every declared name resolves ([resolve] above), whatever the module can see.
+   [old_retry] is the retry before 91db0c8 (diagram classes plus the FIRST missing name only; a second unknown name
+   was not caught), kept for the regression theorem. *)
+Definition hidden_of (p : prog) (k : name) : list name :=
+  match find_decl p k with Some d => d_hidden d | None => [] end.
+Fixpoint leaf_names (t : ty) : list name :=
+  match t with
+  | Fwd n => [n]
+  | Optional a | OptionalL a | Pep604 a | Cont _ a | TypeOf a => leaf_names a
+  | DictOf k v => leaf_names k ++ leaf_names v
+  | _ => []
+  end.
+(* reversed MRO along the first base (exact for single inheritance) *)
+Fixpoint chain (fuel : nat) (p : prog) (c : name) : list name :=
+  match fuel with
+  | O => [c]
+  | S k => match bases_of p c with b :: _ => chain k p b ++ [c] | [] => [c] end
+  end.
+Definition unresolved (p : prog) (c : name) : list name :=
+  flat_map (fun k => flat_map (fun f => filter (fun n => mem n (hidden_of p k)) (leaf_names (f_ann f)))
+                              (own_fields p k)) (chain (length p) p c).
+Definition old_retry (p : prog) (ns : list name) (c : name) : res unit :=
+  match unresolved p c with
+  | [] => Ok tt
+  | e :: _ => if forallb (fun n => mem n ns || Pos.eqb n e) (unresolved p c) then Ok tt else Raise NameError
+  end.
+
+
 (* ---- typing.get_type_hints on the class: names are looked up in the module namespace ---- *)
 Definition resolve_name (p : prog) (n : name) : res ty :=
   match find_decl p n with
   | Some d => Ok (match d_kind d with DEnum => Enum n | _ => Cls n end)
   | None => Raise TypeResolutionError   (* a name no loaded module declares: manually_search_for_class_name gives up *)
   end.
-(* ns: the diagram's classes, the fallback namespace of resolved_type (keyed by __name__) *)
-Fixpoint resolve (p : prog) (ns : list name) (t : ty) : res ty :=
+(* ns: the diagram's classes, the fallback namespace of resolved_type (keyed by __name__).
+   sh: what a name denotes once the fallback namespace is in force.  The retry passes {__name__: class} of ALL diagram
+   classes as local namespace, which takes precedence over the module's globals: a name whose class has a namesake in the
+   diagram then denotes the LAST diagram class of that __name__ ([shadow]); without a retry sh is the identity. *)
+Definition pyname_of (p : prog) (m : name) : name :=
+  match find_decl p m with Some d => d_pyname d | None => m end.
+Definition shadow (p : prog) (ns : list name) (n : name) : name :=
+  match rev (filter (fun m => Pos.eqb (pyname_of p m) (pyname_of p n)) ns) with m :: _ => m | [] => n end.
+Definition needs_retry (p : prog) (c : name) : bool := match unresolved p c with [] => false | _ => true end.
+Definition sh_of (p : prog) (ns : list name) (c : name) : name -> name :=
+  if needs_retry p c then shadow p ns else (fun n => n).
+
+Fixpoint resolve (p : prog) (ns : list name) (sh : name -> name) (t : ty) : res ty :=
   match t with
-  | Fwd n => resolve_name p n
-  | FwdLocal n => if mem n ns then resolve_name p n else Raise TypeResolutionError
-  | Optional a => bind (resolve p ns a) (fun a' => Ok (Optional a'))
-  | OptionalL a => bind (resolve p ns a) (fun a' => Ok (OptionalL a'))
-  | Pep604 a => bind (resolve p ns a) (fun a' => Ok (Pep604 a'))
-  | Cont k a => bind (resolve p ns a) (fun a' => Ok (Cont k a'))
-  | TypeOf a => bind (resolve p ns a) (fun a' => Ok (TypeOf a'))
-  | DictOf k v => bind (resolve p ns k) (fun k' => bind (resolve p ns v) (fun v' => Ok (DictOf k' v')))
-  | UnionPair pep a b => bind (resolve p ns a) (fun a' => bind (resolve p ns b) (fun b' => Ok (UnionPair pep a' b')))
+  | Fwd n => resolve_name p (sh n)
+  | FwdLocal n => if mem n ns then resolve_name p (sh n) else Raise TypeResolutionError
+  | Optional a => bind (resolve p ns sh a) (fun a' => Ok (Optional a'))
+  | OptionalL a => bind (resolve p ns sh a) (fun a' => Ok (OptionalL a'))
+  | Pep604 a => bind (resolve p ns sh a) (fun a' => Ok (Pep604 a'))
+  | Cont k a => bind (resolve p ns sh a) (fun a' => Ok (Cont k a'))
+  | TypeOf a => bind (resolve p ns sh a) (fun a' => Ok (TypeOf a'))
+  | DictOf k v => bind (resolve p ns sh k) (fun k' => bind (resolve p ns sh v) (fun v' => Ok (DictOf k' v')))
+  | UnionPair pep a b => bind (resolve p ns sh a) (fun a' => bind (resolve p ns sh b) (fun b' => Ok (UnionPair pep a' b')))
   | _ => Ok t
   end.
 
@@ -59,13 +102,15 @@ Definition nodes_of (cs : list name) : list name := cs.
 Definition inh_edges (p : prog) (ns : list name) : list edge :=
   flat_map (fun c => flat_map (fun b => if mem b ns then [mk_edge EInh b c xH] else []) (bases_of p c)) ns.
 
-Definition field_edge (p : prog) (ns : list name) (c : name) (f : fdecl) : res (list edge) :=
-  bind (resolve p ns (f_ann f)) (fun rt =>
+Definition field_edge_with (p : prog) (ns : list name) (sh : name -> name) (c : name) (f : fdecl) : res (list edge) :=
+  bind (resolve p ns sh (f_ann f)) (fun rt =>
   bind (type_endpoint {| resolved_type := rt; has_default := f_default f; has_default_factory := f_factory f |}) (fun ep =>
   Ok (match ep with
       | Cls d | Enum d => if mem d ns then [mk_edge EAssoc c d (f_name f)] else []
       | _ => []
       end))).
+Definition field_edge (p : prog) (ns : list name) (c : name) (f : fdecl) : res (list edge) :=
+  field_edge_with p ns (sh_of p ns c) c f.
 Fixpoint mconcat {A B} (f : A -> res (list B)) (l : list A) : res (list B) :=
   match l with
   | [] => Ok []
@@ -74,37 +119,6 @@ Fixpoint mconcat {A B} (f : A -> res (list B)) (l : list A) : res (list B) :=
 Definition public_fields (T : table) (c : name) : list fdecl :=
   filter (fun f => negb (f_private f)) (lookup_tab T c).
 
-(* ---- WrappedField.resolved_type when the module cannot see a name (TYPE_CHECKING-only import) ----
-   get_type_hints(cls) evaluates every annotation of every class of the MRO (base first) in that class's module and
-   raises NameError for the first name it cannot find.  Since 91db0c8 the retry starts from the diagram's classes as
-   local namespace and adds every further missing name it finds in the loaded modules, one after the other, until
-   the hints evaluate: every declared name resolves ([resolve] above), whatever the module can see.
-   [old_retry] is the retry before 91db0c8 (diagram classes plus the FIRST missing name only; a second unknown name
-   was not caught), kept for the regression theorem. *)
-Definition hidden_of (p : prog) (k : name) : list name :=
-  match find_decl p k with Some d => d_hidden d | None => [] end.
-Fixpoint leaf_names (t : ty) : list name :=
-  match t with
-  | Fwd n => [n]
-  | Optional a | OptionalL a | Pep604 a | Cont _ a | TypeOf a => leaf_names a
-  | DictOf k v => leaf_names k ++ leaf_names v
-  | _ => []
-  end.
-(* reversed MRO along the first base (exact for single inheritance) *)
-Fixpoint chain (fuel : nat) (p : prog) (c : name) : list name :=
-  match fuel with
-  | O => [c]
-  | S k => match bases_of p c with b :: _ => chain k p b ++ [c] | [] => [c] end
-  end.
-Definition unresolved (p : prog) (c : name) : list name :=
-  flat_map (fun k => flat_map (fun f => filter (fun n => mem n (hidden_of p k)) (leaf_names (f_ann f)))
-                              (own_fields p k)) (chain (length p) p c).
-Definition old_retry (p : prog) (ns : list name) (c : name) : res unit :=
-  match unresolved p c with
-  | [] => Ok tt
-  | e :: _ => if forallb (fun n => mem n ns || Pos.eqb n e) (unresolved p c) then Ok tt else Raise NameError
-  end.
-
 (* resolved_type is first read for the first public field; get_type_hints then evaluates EVERY annotation of the
    class (private and inherited fields included), so one unresolvable name fails the class *)
 Fixpoint mcheck {A B} (f : A -> res B) (l : list A) : res unit :=
@@ -112,7 +126,7 @@ Fixpoint mcheck {A B} (f : A -> res B) (l : list A) : res unit :=
 Definition class_edges (p : prog) (T : table) (ns : list name) (c : name) : res (list edge) :=
   match public_fields T c with
   | [] => Ok []
-  | fs => bind (mcheck (fun f => resolve p ns (f_ann f)) (lookup_tab T c)) (fun _ => mconcat (field_edge p ns c) fs)
+  | fs => bind (mcheck (fun f => resolve p ns (sh_of p ns c) (f_ann f)) (lookup_tab T c)) (fun _ => mconcat (field_edge p ns c) fs)
   end.
 Definition assoc_edges (p : prog) (ns : list name) : res (list edge) :=
   let T := tab p in mconcat (class_edges p T ns) ns.
@@ -136,7 +150,7 @@ Definition preds_sx (f : wfield) : sx :=
       rsx SB (is_collection_of_builtins f); rsx SB (is_role_taker f);
       rsx (fun o => SZ (origin_code o)) (container_type f); rsx ty_sx (contained_type f)].
 Definition classify_sx (p : prog) (t : ty) (d df : bool) : sx :=
-  match resolve p [] t with
+  match resolve p [] (fun n => n) t with
   | Ok rt => preds_sx {| resolved_type := rt; has_default := d; has_default_factory := df |}
   | Raise e => SL [SZ (-1)%Z; exn_sx e]
   end.
